@@ -352,10 +352,13 @@ func ppItems(r *h.Rand, n int, rich bool, base int) []ppItem {
 			out = append(out, ppItem{[]byte("\x1b[200~"), "P1"})
 			out = append(out, ppItem{[]byte("\x1b[201~"), "P0"})
 		default:
+			it := ppItem{[]byte("\x1b[O"), "F0"}
 			if r.Bool() {
-				out = append(out, ppItem{[]byte("\x1b[I"), "F1"})
-			} else {
-				out = append(out, ppItem{[]byte("\x1b[O"), "F0"})
+				it = ppItem{[]byte("\x1b[I"), "F1"}
+			}
+			out = append(out, it)
+			if r.Chance(40) { // the same report again (a terminal that repeats it; two windows taking turns)
+				out = append(out, it)
 			}
 		}
 	}
